@@ -42,6 +42,8 @@ CONFIGS = [
     {"name": "no-esc-in-add", "esc": "\\", "multi": "%", "single": "_", "add": "", "filter": "", "quote": "'"},     # D7
     {"name": "nosingle", "esc": "\\", "multi": "*", "single": None, "add": "\\", "filter": "", "quote": '"'},
     {"name": "nomulti", "esc": "\\", "multi": None, "single": "?", "add": "\\", "filter": "", "quote": '"'},
+    # the quote character is also filtered (a filtered character is dropped entirely: no escape character may be left behind)
+    {"name": "filter-quote", "esc": "\\", "multi": "*", "single": "?", "add": "\\", "filter": '"&', "quote": '"'},
     # conditional quoting: quote unless the plain form is a bare token (str_quote_pattern + negation)
     {"name": "cond-quote", "esc": "\\", "multi": "*", "single": "?", "add": "\\", "filter": "", "quote": '"', "bare": "A-Za-z0-9_.*?\\\\"},
 ]
@@ -52,6 +54,8 @@ FIELD_CFGS = [
     {"name": "q-noesc-of-esc", "escape": "\\", "chars": " ", "escapeQuote": True, "quote": "'", "always": True},   # escape char not covered
     {"name": "dq", "escape": "\\", "chars": "\\\"", "escapeQuote": False, "quote": '"', "always": True},
     {"name": "plain", "escape": None, "chars": "", "escapeQuote": True, "quote": None, "always": False},
+    # a backend class derived from the first one with another quote character, used after its parent in the same process
+    {"name": "dq-derived", "escape": "\\", "chars": " \\", "escapeQuote": True, "quote": '"', "always": True, "parent": "q-esc"},
 ]
 FIELD_ALPHA = ["a", " ", "\\", "'", '"', "."]
 
@@ -132,7 +136,10 @@ def field_backend_for(cfg):
                  "field_escape_pattern": re.compile("[" + re.escape(cfg["chars"]) + "]") if cfg["chars"] else None,
                  "field_escape_quote": cfg["escapeQuote"], "field_quote": cfg["quote"], "field_quote_pattern": None,
                  "backend_processing_pipeline": ProcessingPipeline()}
-        _backends[key] = type("F_" + re.sub(r"\W", "_", cfg["name"]), (TextQueryTestBackend,), attrs)()
+        base = TextQueryTestBackend
+        if cfg.get("parent"):
+            base = type(field_backend_for(next(c for c in FIELD_CFGS if c["name"] == cfg["parent"])))
+        _backends[key] = type("F_" + re.sub(r"\W", "_", cfg["name"]), (base,), attrs)()
     return _backends[key]
 
 
